@@ -536,3 +536,34 @@ func (of *OpenFile) IOUnit() int { return 0 }
 var _ p9p.FileSys = (*FS)(nil)
 var _ p9p.Dirent = (*Handle)(nil)
 var _ p9p.File = (*OpenFile)(nil)
+
+// PopulateDir adds a directory /name with n children produced by f.
+func (fs *FS) PopulateDir(name string, n int, f func(i int) (string, []byte)) {
+	fs.mu.Lock()
+	defer fs.mu.Unlock()
+	d := fs.addNode(fs.Root, name, true)
+	for i := 0; i < n; i++ {
+		cn, data := f(i)
+		if _, dup := d.Children[cn]; dup {
+			cn = fmt.Sprintf("%s~%d", cn, i)
+		}
+		fs.addNode(d, cn, false).Data = data
+	}
+}
+
+// Listing returns the stat records of /name's children in the order OpenDir serves them.
+func (fs *FS) Listing(name string) []p9p.Dir {
+	fs.mu.Lock()
+	defer fs.mu.Unlock()
+	d := fs.Root.Children[name]
+	var names []string
+	for k := range d.Children {
+		names = append(names, k)
+	}
+	sort.Strings(names)
+	var out []p9p.Dir
+	for _, k := range names {
+		out = append(out, d.Children[k].Stat())
+	}
+	return out
+}
